@@ -311,7 +311,7 @@ pub fn template(r: &mut Rng, which: usize) -> Tmpl {
         }
         _ => {
             // multiple_statements
-            let mut x = match r.below(14) {
+            let mut x = match r.below(20) {
                 0 => t("multiple_statements", "three-calls", true, "foo() bar() baz()".to_owned()),
                 1 => t("multiple_statements", "two-calls", true, format!("foo({}) bar({})", number(r), r.pick(&STR_A))),
                 2 => t("multiple_statements", "two-locals", true, format!("local p = {} local q = {}", number(r), plain_value(r))),
@@ -325,7 +325,14 @@ pub fn template(r: &mut Rng, which: usize) -> Tmpl {
                 10 => t("multiple_statements", "separate-lines", false, "foo()\nbar()\nbaz()".to_owned()),
                 11 => t("multiple_statements", "multi-line-call", true, "foo(\n  1\n) bar()".to_owned()),
                 12 => t("multiple_statements", "multi-line-string", true, "x = [[\n]] y = 2".to_owned()),
-                _ => t("multiple_statements", "two-line-if", true, "if x then\n  return end".to_owned()),
+                13 => t("multiple_statements", "two-line-if", true, "if x then\n  return end".to_owned()),
+                // a second statement on the closing line of a multi-line statement whose body holds statements of its own
+                14 => t("multiple_statements", "after-multi-line-if", true, "if x then\n  foo()\nend bar()".to_owned()),
+                15 => t("multiple_statements", "after-multi-line-callback", true, "foo(function()\n  bar()\nend) baz()".to_owned()),
+                16 => t("multiple_statements", "after-multi-line-loop", true, format!("{}\n  foo()\n  bar()\nend baz()", r.pick(&["while x do", "for i = 1, 2 do", "do", "for k in pairs(x) do"]))),
+                17 => t("multiple_statements", "after-nested-multi-line", true, "if x then\n  if y then\n    foo()\n  end\n  bar()\nend baz()".to_owned()),
+                18 => t("multiple_statements", "after-multi-line-function", true, "local function p()\n  foo()\nend local q = 1".to_owned()),
+                _ => t("multiple_statements", "after-multi-line-repeat", true, "repeat\n  foo()\nuntil x bar()".to_owned()),
             };
             x.inline = r.chance(1, 3);
             x
